@@ -470,3 +470,79 @@
         kani::cover!(delay == 0xFFFF);
         std::mem::forget(s);
     }
+
+    // ---------------------------------------------------------------- C11 / C12 / C05: what ends or continues a solicited confirm wait
+    // @harness ids=C11,C12,C05,C01 tier=quick kind=proof stubs=1 units=outstation::session::OutstationSession::expect_sol_confirm timeout=900 note="while a response series awaits its confirmation, for ANY waiting fragment: a solicited CONFIRM with the expected sequence number confirms (any other CONFIRM keeps waiting); a repeat of the READ is answered by echoing the stored response; every other request - new read, non-read, broadcast, malformed objects, and a fragment rejected before object parsing (bad function code / flags) - ENDS the series as a new request (so that it is answered, never silently dropped); link-layer traffic and an empty reader keep waiting"
+    #[kani::proof]
+    #[kani::unwind(4)]
+    #[kani::stub(crate::app::parse::parser::ParsedFragment::parse, crate::app::parse::parser::ParsedFragment::stub_parse)]
+    #[kani::stub(xxhash_rust::xxh64::xxh64, stub_xxh64)]
+    #[kani::stub(tokio::time::Instant::now, crate::util::verif_kani_clock::stub_now)]
+    fn vk_c11_expect_sol_confirm() {
+        use crate::transport::verif_kani_c07_pop_request as pr;
+        use crate::transport::real::assembler::verif_kani_c07_helpers as ah;
+        use crate::transport::real::reader::verif_kani_c07_helpers as rh;
+        let mut s = make_session();
+        let mut reader = TransportReader::outstation(
+            crate::link::reader::LinkModes::stream(crate::link::LinkErrorMode::Close),
+            crate::app::parse::options::ParseOptions::parse_everything(),
+            EndpointAddress::raw(1024), Feature::Disabled, 249);
+        let empty: bool = kani::any();
+        let bcast = any_bcast();
+        let info = FragmentInfo::new(kani::any(), FragmentAddr { link: EndpointAddress::raw(1), phys: PhysAddr::None }, bcast);
+        if !empty { ah::force_complete(rh::assembler_mut(pr::inner_mut(&mut reader)), info, 6); }
+        pr::pf_choose();
+        let (kind, _eseq, fc, ctrl, has_iin, _i1, _i2, ok_objects) = unsafe { pr::PF_CHOICE };
+        let ecsn = Sequence::new(kani::any());
+        let has_last: bool = kani::any();
+        let last_seq = Sequence::new(kani::any());
+        let last_hash: u64 = kani::any();
+        let last_resp = any_response();
+        s.state.last_valid_request = if has_last { Some(LastValidRequest::new(last_seq, last_hash, last_resp, None)) } else { None };
+        let h: u64 = kani::any();
+        unsafe { XXH_RET = h; }
+        crate::util::verif_kani_clock::set_now(5, 0);
+        let action = {
+            let mut guard = reader.pop_request(None);
+            let a = s.expect_sol_confirm(ecsn, &mut guard);
+            guard.retain();
+            a
+        };
+        // what the waiting fragment is, in the property's terms
+        let function = match FunctionCode::from(fc) { Some(f) => f, None => FunctionCode::Read };
+        let control = ControlField::from(ctrl);
+        let parsed = kind % 3 == 2;
+        let valid_request = parsed && !has_iin && control.fir && control.fin && (!control.uns || function == FunctionCode::Confirm);
+        if empty {
+            assert!(matches!(action, ConfirmAction::ContinueWait));
+        } else if !valid_request {
+            // rejected before object parsing: must END the wait so that it gets its error reply
+            assert!(matches!(action, ConfirmAction::NewRequest));
+            kani::cover!(!parsed);
+            kani::cover!(parsed && !(control.fir && control.fin));
+        } else if function == FunctionCode::Confirm {
+            if !control.uns && control.seq == ecsn {
+                assert!(matches!(action, ConfirmAction::Confirmed(a) if a.link.raw_value() == 1));
+                kani::cover!(true);
+            } else {
+                assert!(matches!(action, ConfirmAction::ContinueWait));
+                kani::cover!(!control.uns);
+            }
+        } else if bcast.is_some() {
+            assert!(matches!(action, ConfirmAction::NewRequest));
+        } else {
+            let is_repeat = ok_objects && has_last && last_seq == control.seq && last_hash == h;
+            if is_repeat && function == FunctionCode::Read {
+                match action {
+                    ConfirmAction::EchoLastResponse(a, r) => assert!(a.link.raw_value() == 1 && same_response(&r, &last_resp)),
+                    _ => assert!(false),
+                }
+                kani::cover!(last_resp.is_some());
+            } else {
+                assert!(matches!(action, ConfirmAction::NewRequest));
+                kani::cover!(!ok_objects);
+                kani::cover!(is_repeat);
+            }
+        }
+        std::mem::forget(s); std::mem::forget(reader);
+    }
